@@ -24,36 +24,55 @@ import (
 )
 
 // ---------------------------------------------------------------------------------------------
-// Keys: account id k (1..maxKeys) owns the BLS key with secret scalar k.
+// Keys: account id k owns the BLS key with secret scalar 0x5a00 + k (k <= 255) resp.
+// (k>>8)<<16 + 0x5a00 + k&255.  Ids 1..maxKeys are those of the small universes; the large
+// installations (gen_big.go) use ids up to maxBigKey, whose keys are derived on first use.
 
 const maxKeys = 40
+const maxBigKey = 4000
 
 var (
 	keysOnce sync.Once
-	privKeys [maxKeys + 1]e2types.PrivateKey
-	pubKeys  [maxKeys + 1]phase0.BLSPubKey
+	keysMu   sync.Mutex
+	keysUpTo int
+	privKeys [maxBigKey + 1]e2types.PrivateKey
+	pubKeys  [maxBigKey + 1]phase0.BLSPubKey
 	pkToID   = map[phase0.BLSPubKey]int{}
 )
 
-func initKeys() {
+func initKeys() { ensureKeys(maxKeys) }
+
+// ensureKeys derives the keys of the ids 1..n.
+func ensureKeys(n int) {
 	keysOnce.Do(func() {
 		if err := e2types.InitBLS(); err != nil {
 			panic(err)
 		}
-		for k := 1; k <= maxKeys; k++ {
-			var sk [32]byte
-			sk[31] = byte(k)
-			sk[30] = 0x5a
-			priv, err := e2types.BLSPrivateKeyFromBytes(sk[:])
-			if err != nil {
-				panic(err)
-			}
-			privKeys[k] = priv
-			copy(pubKeys[k][:], priv.PublicKey().Marshal())
-			pkToID[pubKeys[k]] = k
-		}
 	})
+	if n > maxBigKey {
+		panic("account id above maxBigKey")
+	}
+	keysMu.Lock()
+	defer keysMu.Unlock()
+	for k := keysUpTo + 1; k <= n; k++ {
+		var sk [32]byte
+		sk[31] = byte(k)
+		sk[30] = 0x5a
+		sk[29] = byte(k >> 8)
+		priv, err := e2types.BLSPrivateKeyFromBytes(sk[:])
+		if err != nil {
+			panic(err)
+		}
+		privKeys[k] = priv
+		copy(pubKeys[k][:], priv.PublicKey().Marshal())
+		pkToID[pubKeys[k]] = k
+	}
+	if n > keysUpTo {
+		keysUpTo = n
+	}
 }
+
+func accountUUID(id int) uuid.UUID { return uuid.UUID{0xac, byte(id), byte(id >> 8)} }
 
 // ---------------------------------------------------------------------------------------------
 // dirk: wallets and accounts as the remote signer lists them.
@@ -63,7 +82,7 @@ type signerAccount struct {
 	name string
 }
 
-func (a *signerAccount) ID() uuid.UUID                { return uuid.UUID{0xac, byte(a.id)} }
+func (a *signerAccount) ID() uuid.UUID                { return accountUUID(a.id) }
 func (a *signerAccount) Name() string                 { return a.name }
 func (a *signerAccount) PublicKey() e2types.PublicKey { return privKeys[a.id].PublicKey() }
 
@@ -150,7 +169,7 @@ func (s *fakeStore) setWallet(name string, accounts []Acct) {
 			pass = otherPassphrase
 		}
 		doc, _ := json.Marshal(map[string]any{
-			"uuid":      uuid.UUID{0xac, byte(a.ID)}.String(),
+			"uuid":      accountUUID(a.ID).String(),
 			"name":      a.Name,
 			"pubkey":    fmt.Sprintf("%x", pubKeys[a.ID][:]),
 			"crypto":    keystore(privKeys[a.ID].Marshal(), pass),
@@ -234,35 +253,43 @@ func (s *fakeStore) RetrieveAccount(uuid.UUID, uuid.UUID) ([]byte, error) {
 
 // ---------------------------------------------------------------------------------------------
 // The beacon node's validators endpoint: answers with the scripted validators, restricted to the
-// requested public keys (all of them when none is named), or fails.
+// requested public keys (all of them when none is named), or fails: every request (fail), or --
+// like a node that times out on, or rejects, a request because of something in it -- every request
+// that names the public key of account failOn.  Like the real client it gives up when the request's
+// context is done.
 
 type node struct {
-	mu    sync.Mutex
-	fail  bool
-	vals  []Val
-	calls int
-	asked [][]int
+	mu     sync.Mutex
+	fail   bool
+	failOn int
+	vals   []Val
+	calls  int
+	asked  []int // number of public keys named by each request
 }
 
-func (n *node) script(fail bool, vals []Val) {
+func (n *node) script(fail bool, failOn int, vals []Val) {
 	n.mu.Lock()
-	n.fail, n.vals = fail, vals
+	n.fail, n.failOn, n.vals = fail, failOn, vals
 	n.mu.Unlock()
 }
 
-func (n *node) Validators(_ context.Context, opts *api.ValidatorsOpts) (*api.Response[map[phase0.ValidatorIndex]*apiv1.Validator], error) {
+func (n *node) Validators(ctx context.Context, opts *api.ValidatorsOpts) (*api.Response[map[phase0.ValidatorIndex]*apiv1.Validator], error) {
 	n.mu.Lock()
 	defer n.mu.Unlock()
 	n.calls++
-	var asked []int
-	want := map[phase0.BLSPubKey]bool{}
+	if err := ctx.Err(); err != nil {
+		return nil, err
+	}
+	want := make(map[phase0.BLSPubKey]bool, len(opts.PubKeys))
 	for _, pk := range opts.PubKeys {
 		want[pk] = true
-		asked = append(asked, pkToID[pk])
 	}
-	n.asked = append(n.asked, asked)
+	n.asked = append(n.asked, len(opts.PubKeys))
 	if n.fail {
 		return nil, errors.New("scripted failure")
+	}
+	if n.failOn > 0 && want[pubKeys[n.failOn]] {
+		return nil, errors.New("scripted failure: the request timed out")
 	}
 	res := map[phase0.ValidatorIndex]*apiv1.Validator{}
 	for _, v := range n.vals {
